@@ -15,6 +15,10 @@ class AppTimeout(TimeoutError):
 
 
 EXC["AppTimeout"] = AppTimeout
+EXC["CancelledError"] = asyncio.CancelledError  # an actor that lets a helper's cancellation escape (helper.cancel(); await helper)
+
+
+HOSTILE_TEXTS = ["boom", "missing {value}", "{", "}{0}{}", "100%s %d %(x)s", "input_value={'b': 1}", "", "x" * 3000, "ünïcødé \u2028 line\nbreak", '{"json": [1, 2]}']
 
 
 def converter_cls(name: str):
@@ -38,6 +42,7 @@ class World:
         self.loop_cap = 12
         self.max_inflight = 0
         self.actor_starts = 0
+        self.stale_deps = []
 
     async def open(self):
         await self.conn.connect()
@@ -83,6 +88,14 @@ class World:
             if nth > world.loop_cap:
                 log.add(k="delivery_loop", id=id_, attempt=attempt, nth=nth)
                 st = {"do": "ok"}  # break a redelivery loop (reported by the monitor) so that the run terminates
+            # ground truth for the injected message dependency: the delivery this execution was started for
+            last = None
+            for e in reversed(log.events):
+                if e.get("k") == "ret" and e.get("op") == "consume" and e.get("id") == id_:
+                    last = e
+                    break
+            if last is not None and (last.get("params") or {}).get("tried") not in (None, attempt):
+                world.stale_deps.append({"id": id_, "delivered_tried": last["params"]["tried"], "dependency_tried": attempt})
             world.inflight += 1
             world.actor_starts += 1
             world.max_inflight = max(world.max_inflight, world.inflight)
@@ -99,7 +112,11 @@ class World:
                     return st.get("ret")
                 if do == "raise":
                     log.add(k="actor_raise", id=id_, attempt=attempt, actor=name, exc=st.get("exc", "ValueError"))
-                    raise EXC[st.get("exc", "ValueError")](st.get("msg", "boom"))
+                    # exception texts a real actor can produce: they end up in log templates, results and buckets
+                    msg = st.get("msg")
+                    if msg is None:
+                        msg = HOSTILE_TEXTS[(sum(map(ord, id_)) + attempt) % len(HOSTILE_TEXTS)]
+                    raise EXC[st.get("exc", "ValueError")](msg)
                 if do == "eager":
                     for pre in st.get("pre", []):
                         if pre[0] == "set_result":
